@@ -27,6 +27,7 @@ type pipeWatch struct {
 	detached int
 	ids      []uint32
 	remotes  []net.Addr
+	times    []time.Duration // mon.Now() inside the hook, per attach event
 }
 
 func watch(s mangos.Socket) *pipeWatch {
@@ -36,6 +37,7 @@ func watch(s mangos.Socket) *pipeWatch {
 		switch ev {
 		case mangos.PipeEventAttached:
 			w.attached++
+			w.times = append(w.times, mon.Now())
 			w.ids = append(w.ids, p.ID())
 			if v, err := p.GetOption(mangos.OptionRemoteAddr); err == nil {
 				if a, ok := v.(net.Addr); ok {
@@ -74,6 +76,13 @@ func attachViolation(c *mon.Case, w *pipeWatch, sig, format string, a ...interfa
 		return
 	}
 	c.Violate(sig, format, a...)
+}
+
+// AttachTime is the time (taken in the library's goroutine, inside the hook) of the i-th attach event.
+func (w *pipeWatch) AttachTime(i int) time.Duration {
+	w.mu.Lock()
+	defer w.mu.Unlock()
+	return w.times[i]
 }
 func (w *pipeWatch) Detached() int { w.mu.Lock(); defer w.mu.Unlock(); return w.detached }
 func (w *pipeWatch) ID(i int) uint32 {
